@@ -14,6 +14,8 @@ import (
 
 	apierrors "k8s.io/apimachinery/pkg/api/errors"
 	"k8s.io/apimachinery/pkg/api/meta"
+	"k8s.io/apimachinery/pkg/fields"
+	"k8s.io/apimachinery/pkg/labels"
 	metav1 "k8s.io/apimachinery/pkg/apis/meta/v1"
 	"k8s.io/apimachinery/pkg/apis/meta/v1/unstructured"
 	k8sruntime "k8s.io/apimachinery/pkg/runtime"
@@ -478,7 +480,15 @@ type rscript struct {
 	// statuses the DELAYED re-check (status.ScheduleWindow after an unschedulable
 	// pod was seen) must report after the "tick" step, per object
 	late map[oid][]string
+	// filters: DefaultStatusWatcher.Filters is set (bit 0: a label selector that every object
+	// of the script satisfies, bit 1: a field selector that every object satisfies), so the
+	// events must be those of an unfiltered watch, and every LIST and WATCH request the
+	// informers issue must carry the configured selectors (observed at the fake API server)
+	filters int
 }
+
+const filterLabelKey, filterLabelValue = "verif.c16/selected", "yes"
+const filterFieldSelector = "metadata.name!=excluded-by-field-selector"
 
 // preReadErrors: watched objects that exist when Watch is called and whose status
 // read fails: the initial listing reports the fatal error before any sync (the
@@ -515,6 +525,8 @@ type robs struct {
 	marks      []int // number of events received when each step began
 	tickMark   int   // events received when the wait for the delayed re-check began (-1: no such wait)
 	deadCtx    int64 // requests the client refused because their context was done
+	badSel     int64 // LIST / WATCH requests that did not carry the configured selectors
+	badSelMsg  string
 }
 
 func idOf(m object.ObjMetadata) (oid, bool) {
@@ -580,8 +592,39 @@ func runReporterScript(sc *rscript) (obs *robs) {
 	for k, on := range sc.forbid {
 		forbid[k] = on
 	}
+	var selMu sync.Mutex
+	checkSel := func(verb string, a clienttesting.Action, r clienttesting.ListRestrictions) {
+		if sc.filters == 0 {
+			return
+		}
+		wantL, wantF := "", ""
+		if sc.filters&1 != 0 {
+			wantL = filterLabelKey + "=" + filterLabelValue
+		}
+		if sc.filters&2 != 0 {
+			wantF = filterFieldSelector
+		}
+		gotL, gotF := "", ""
+		if r.Labels != nil {
+			gotL = r.Labels.String()
+		}
+		if r.Fields != nil {
+			gotF = r.Fields.String()
+		}
+		if gotL != wantL || gotF != wantF {
+			selMu.Lock()
+			obs.badSel++
+			if obs.badSelMsg == "" {
+				obs.badSelMsg = fmt.Sprintf("%s %s labels=%q (want %q) fields=%q (want %q)", verb, a.GetResource().Resource, gotL, wantL, gotF, wantF)
+			}
+			selMu.Unlock()
+		}
+	}
 	client.PrependReactor("*", "*", func(a clienttesting.Action) (bool, k8sruntime.Object, error) {
 		atomic.AddInt64(&act, 1)
+		if la, ok := a.(clienttesting.ListAction); ok && a.GetVerb() == "list" {
+			checkSel("LIST", a, la.GetListRestrictions())
+		}
 		if a.GetVerb() == "list" {
 			forbidMu.Lock()
 			defer forbidMu.Unlock()
@@ -603,6 +646,10 @@ func runReporterScript(sc *rscript) (obs *robs) {
 	watchCount := make([]int64, len(kinds))
 	client.PrependWatchReactor("*", func(a clienttesting.Action) (bool, watch.Interface, error) {
 		atomic.AddInt64(&act, 1)
+		if wa, ok := a.(clienttesting.WatchAction); ok {
+			wr := wa.GetWatchRestrictions()
+			checkSel("WATCH", a, clienttesting.ListRestrictions{Labels: wr.Labels, Fields: wr.Fields})
+		}
 		kind := -1
 		for k, ki := range kinds {
 			if ki.resource == a.GetResource().Resource && ki.gvk.Group == a.GetResource().Group {
@@ -645,6 +692,14 @@ func runReporterScript(sc *rscript) (obs *robs) {
 			uids[id] = fmt.Sprintf("uid-%d", rv)
 		}
 		u.SetUID(types.UID(uids[id]))
+		if sc.filters&1 != 0 {
+			l := u.GetLabels()
+			if l == nil {
+				l = map[string]string{}
+			}
+			l[filterLabelKey] = filterLabelValue
+			u.SetLabels(l)
+		}
 	}
 
 	truth := map[int]bool{}
@@ -679,6 +734,19 @@ func runReporterScript(sc *rscript) (obs *robs) {
 	defer func() { obs.deadCtx = atomic.LoadInt64(&dead) }()
 	w := watcher.NewDefaultStatusWatcher(&ctxClient{Interface: client, dead: &dead}, mapper)
 	w.StatusReader = &slowStatusReader{StatusReader: statusreaders.NewDefaultStatusReader(mapper), act: &act}
+	if sc.filters != 0 {
+		w.Filters = &watcher.Filters{}
+		if sc.filters&1 != 0 {
+			w.Filters.Labels = labels.SelectorFromSet(labels.Set{filterLabelKey: filterLabelValue})
+		}
+		if sc.filters&2 != 0 {
+			fs, err := fields.ParseSelector(filterFieldSelector)
+			if err != nil {
+				panic(err)
+			}
+			w.Filters.Fields = fs
+		}
+	}
 	ch := w.Watch(ctx, ids, watcher.Options{RESTScopeStrategy: strategy})
 
 	var mu sync.Mutex
@@ -1540,6 +1608,9 @@ func (sc *rscript) caseTerm(o *robs) (string, string) {
 	term := fmt.Sprintf("(mkRCase (mkConfig %s %s %s) %s %s %s %s %d %s %s %d %s)", scope, emit.List(watched), emit.NatList(builtin),
 		emit.List(pre), emit.List(steps), emit.List(evs), emit.Bool(o.closed), o.unknown, emit.NatList(o.marks), emit.Bool(o.selfClosed),
 		tick, emit.List(late))
+	if sc.filters != 0 {
+		ftxt = append(ftxt, fmt.Sprintf("(Filters: %s)", []string{"", "labels", "fields", "labels+fields"}[sc.filters]))
+	}
 	text := fmt.Sprintf("watcher[%s] scope=%s watched=[%s] pre=[%s] forbidden=[%s] steps=[%s] -> events=[%s] closed=%v",
 		sc.label, strings.TrimPrefix(scope, "Scope"), strings.Join(wtxt, ","), strings.Join(ptxt, ","), strings.Join(ftxt, ","),
 		strings.Join(txt, "; "), strings.Join(etxt, " "), fmt.Sprintf("%v self-closed=%v events-before-wait=%d", o.closed, o.selfClosed, tick))
@@ -1582,6 +1653,13 @@ func runReporter(r *rand.Rand, tier, outDir string, sum *emit.Summary) error {
 	}
 	for i := 0; i < nRandom/10; i++ {
 		scripts = append(scripts, genReadError(r))
+	}
+	// every fourth script runs with DefaultStatusWatcher.Filters set (selectors that all its
+	// objects satisfy): same events, and the requests must carry the selectors
+	for i, sc := range scripts {
+		if i%4 == 1 {
+			sc.filters = 1 + (i/4)%3
+		}
 	}
 	// A panic in an informer goroutine normally kills the process (client-go's
 	// HandleCrash re-panics).  Keep the process alive so that the script gets its
@@ -1658,6 +1736,11 @@ func runReporter(r *rand.Rand, tier, outDir string, sum *emit.Summary) error {
 		}
 		if !o.closed {
 			sum.ImplFailures = append(sum.ImplFailures, "watcher: event channel not closed 30s after cancel: "+text)
+		}
+		if o.badSel > 0 {
+			sum.ImplFailures = append(sum.ImplFailures, fmt.Sprintf(
+				"watcher: %d LIST/WATCH requests of the informers did not carry the selectors of DefaultStatusWatcher.Filters (first: %s) in %s",
+				o.badSel, o.badSelMsg, text))
 		}
 		cf.Add(term, text)
 		terms = append(terms, term)
